@@ -1,56 +1,149 @@
-(** C01 — the token loop of Keyvalues.parse rebuilds a tree from its token stream. *)
+(** C01 — the token loop of Keyvalues.parse rebuilds a tree from its token stream, for every setting of the
+    options newline_keys / newline_values / single_line / single_block. *)
 From Coq Require Import List NArith Bool Lia.
-From SV Require Import KV.KvBase KV.KvLex KV.KvParse KV.KvSer.
+From SV Require Import KV.KvBase KV.KvLex KV.KvParse KV.KvSer KV.KvSym.
 Import ListNotations.
 Open Scope N_scope.
 
+(** Every name and value of the tree passes the 'Illegal newline' tests under the options [O]. *)
+Fixpoint kv_ok (P : parsecfg) (O : popts) (k : kv) : bool :=
+  match k with
+  | Leaf n v => negb (key_bad P O n) && negb (value_bad P O v)
+  | Block n cs => negb (key_bad P O n) && forallb (kv_ok P O) cs
+  end.
+
 Section Rt.
+  Variable P : parsecfg.
+  Variable O : popts.
   Variable flag_on : str -> bool.
   Variable fin : option lexerr.
-  Notation prun := (prun flag_on fin).
+  Notation prun := (prun P O flag_on fin).
+  Notation kv_ok := (kv_ok P O).
+  Notation sb_root := (sb_root O).
 
-  Lemma prun_kv : forall k, names_ok k = true -> forall stk cur cfr rest,
-    prun stk cur BNone cfr (toks k ++ rest) = prun stk (fst cur, k :: snd cur) BNone true rest.
+  (** Children of a block: processed below at least one stacked frame, so single_block does not interfere. *)
+  Lemma prun_children n cs :
+    Forall (fun k => kv_ok k = true -> forall stk cur cfr rest, sb_root stk = false ->
+       prun stk cur BNone cfr (toks k ++ rest) = prun stk (fst cur, k :: snd cur) BNone true rest) cs ->
+    forallb kv_ok cs = true ->
+    forall acc cfr0 rest0 fr stk0, exists cfr1,
+      prun (fr :: stk0) (Some n, acc) BNone cfr0 (flat_map toks cs ++ rest0)
+      = prun (fr :: stk0) (Some n, rev cs ++ acc) BNone cfr1 rest0.
   Proof.
-    induction k as [n v | n cs IH] using kv_ind'; intros Hn stk cur cfr rest.
-    - cbn [names_ok] in Hn. apply negb_true_iff in Hn.
-      cbn [toks app prun]. rewrite Hn. reflexivity.
-    - cbn [names_ok] in Hn. apply andb_true_iff in Hn as [Hn Hcs]. apply negb_true_iff in Hn.
-      cbn [toks]. rewrite <- !app_assoc. cbn [app prun]. rewrite Hn. cbn [snd fst].
-      assert (Hch : forall acc cfr0 rest0 stk0, exists cfr1,
-                 prun stk0 (Some n, acc) BNone cfr0 (flat_map toks cs ++ rest0)
-                 = prun stk0 (Some n, rev cs ++ acc) BNone cfr1 rest0).
-      { clear Hn. induction IH as [|k ks Hk _ IHks]; intros acc cfr0 rest0 stk0.
-        - exists cfr0. reflexivity.
-        - cbn [forallb] in Hcs. apply andb_true_iff in Hcs as [Hk1 Hks1].
-          cbn [flat_map]. rewrite <- app_assoc, (Hk Hk1). cbn [fst snd].
-          destruct (IHks Hks1 (k :: acc) true rest0 stk0) as [c1 H1]. exists c1. rewrite H1.
-          cbn [rev]. now rewrite <- app_assoc. }
-      destruct (Hch [] false (TBC :: TNL :: rest) ((fst cur, snd cur) :: stk)) as [c1 H1].
-      rewrite H1. cbn [prun fst snd]. now rewrite app_nil_r, rev_involutive.
+    intros IH. induction IH as [|k ks Hk _ IHks]; intros Hcs acc cfr0 rest0 fr stk0.
+    - exists cfr0. reflexivity.
+    - cbn [forallb] in Hcs. apply andb_true_iff in Hcs as [Hk1 Hks1].
+      cbn [flat_map]. rewrite <- app_assoc, (Hk Hk1) by (unfold KvParse.sb_root; now rewrite andb_false_r).
+      cbn [fst snd].
+      destruct (IHks Hks1 (k :: acc) true rest0 fr stk0) as [c1 H1]. exists c1. rewrite H1.
+      cbn [rev]. now rewrite <- app_assoc.
   Qed.
 
-  Lemma prun_doc : forall d, doc_names_ok d = true -> forall stk cur cfr rest, exists cfr1,
+  Lemma prun_kv : forall k, kv_ok k = true -> forall stk cur cfr rest, sb_root stk = false ->
+    prun stk cur BNone cfr (toks k ++ rest) = prun stk (fst cur, k :: snd cur) BNone true rest.
+  Proof.
+    induction k as [n v | n cs IH] using kv_ind'; intros Hn stk cur cfr rest Hsb.
+    - cbn [KvParseProofs.kv_ok] in Hn. apply andb_true_iff in Hn as [Hn Hv].
+      apply negb_true_iff in Hn, Hv.
+      cbn [toks app KvParse.prun]. rewrite Hn, Hv, Hsb. reflexivity.
+    - cbn [KvParseProofs.kv_ok] in Hn. apply andb_true_iff in Hn as [Hn Hcs]. apply negb_true_iff in Hn.
+      cbn [toks]. rewrite <- !app_assoc. cbn [app KvParse.prun]. rewrite Hn. cbn [snd fst].
+      destruct (prun_children n cs IH Hcs [] false (TBC :: TNL :: rest) (fst cur, snd cur) stk) as [c1 H1].
+      etransitivity; [exact H1|]. cbn [KvParse.prun fst snd]. rewrite Hsb. now rewrite app_nil_r, rev_involutive.
+  Qed.
+
+  (** single_block=True at the root level: the first node is returned as soon as it is complete. *)
+  Lemma prun_kv_single : forall k, kv_ok k = true -> forall fn cfr rest, sb_root [] = true ->
+    prun [] (fn, []) BNone cfr (toks k ++ rest) = PNode k.
+  Proof.
+    intros [n v | n cs] Hn fn cfr rest Hsb.
+    - cbn [KvParseProofs.kv_ok] in Hn. apply andb_true_iff in Hn as [Hn Hv].
+      apply negb_true_iff in Hn, Hv.
+      cbn [toks app KvParse.prun]. rewrite Hn, Hv, Hsb. reflexivity.
+    - cbn [KvParseProofs.kv_ok] in Hn. apply andb_true_iff in Hn as [Hn Hcs]. apply negb_true_iff in Hn.
+      cbn [toks]. rewrite <- !app_assoc. cbn [app KvParse.prun]. rewrite Hn. cbn [snd fst].
+      assert (IH : Forall (fun k => kv_ok k = true -> forall stk cur cfr rest, sb_root stk = false ->
+         prun stk cur BNone cfr (toks k ++ rest) = prun stk (fst cur, k :: snd cur) BNone true rest) cs)
+        by (apply Forall_forall; intros k _; apply prun_kv).
+      destruct (prun_children n cs IH Hcs [] false (TBC :: TNL :: rest) (fn, []) []) as [c1 H1].
+      etransitivity; [exact H1|]. cbn [KvParse.prun fst snd]. rewrite Hsb.
+      unfold root_first. rewrite app_nil_r, rev_involutive. cbn [rev app]. reflexivity.
+  Qed.
+
+  Lemma prun_doc : forall d, forallb kv_ok d = true -> forall stk cur cfr rest, sb_root stk = false -> exists cfr1,
     prun stk cur BNone cfr (toks_doc d ++ rest) = prun stk (fst cur, rev d ++ snd cur) BNone cfr1 rest.
   Proof.
-    induction d as [|k ks IH]; intros Hd stk cur cfr rest.
+    induction d as [|k ks IH]; intros Hd stk cur cfr rest Hsb.
     - exists cfr. destruct cur; reflexivity.
-    - cbn [doc_names_ok forallb] in Hd. apply andb_true_iff in Hd as [Hk Hks].
-      unfold toks_doc in *. cbn [flat_map]. rewrite <- app_assoc, (prun_kv k Hk).
-      destruct (IH Hks stk (fst cur, k :: snd cur) true rest) as [c1 H1]. exists c1. rewrite H1.
+    - cbn [forallb] in Hd. apply andb_true_iff in Hd as [Hk Hks].
+      unfold toks_doc in *. cbn [flat_map]. rewrite <- app_assoc, (prun_kv k Hk) by exact Hsb.
+      destruct (IH Hks stk (fst cur, k :: snd cur) true rest Hsb) as [c1 H1]. exists c1. rewrite H1.
       cbn [fst snd rev]. now rewrite <- app_assoc.
   Qed.
 End Rt.
 
-Theorem parse_toks_doc flag_on d : doc_names_ok d = true -> parse_toks flag_on (toks_doc d, None) = POk d.
+(** * Whole texts *)
+Theorem parse_toks_doc_opts P O flag_on d : po_single_block O = false -> forallb (kv_ok P O) d = true ->
+  parse_toks_opts P O flag_on (toks_doc d, None) = POk d.
 Proof.
-  intros Hd. unfold parse_toks. cbn [fst snd].
-  destruct (prun_doc flag_on None d Hd [] (None, []) false []) as [c1 H1].
+  intros Hsb Hd. unfold parse_toks_opts. cbn [fst snd].
+  destruct (prun_doc P O flag_on None d Hd [] (None, []) false []) as [c1 H1].
+  { unfold sb_root. now rewrite Hsb. }
   rewrite app_nil_r in H1. rewrite H1. cbn. now rewrite app_nil_r, rev_involutive.
 Qed.
 
-Theorem parse_toks_node flag_on k : names_ok k = true -> parse_toks flag_on (toks k, None) = POk [k].
+Theorem parse_toks_node_opts P O flag_on k : po_single_block O = false -> kv_ok P O k = true ->
+  parse_toks_opts P O flag_on (toks k, None) = POk [k].
 Proof.
-  intros Hk. unfold parse_toks. cbn [fst snd].
-  rewrite <- (app_nil_r (toks k)), (prun_kv flag_on None k Hk). reflexivity.
+  intros Hsb Hk. unfold parse_toks_opts. cbn [fst snd].
+  rewrite <- (app_nil_r (toks k)), (prun_kv P O flag_on None k Hk) by (unfold sb_root; now rewrite Hsb).
+  reflexivity.
+Qed.
+
+(** single_block=True: the first top-level node of the text comes back on its own, whatever follows. *)
+Theorem parse_toks_single_block P O flag_on k ks fin : po_single_block O = true -> kv_ok P O k = true ->
+  parse_toks_opts P O flag_on (toks_doc (k :: ks), fin) = PNode k.
+Proof.
+  intros Hsb Hk. unfold parse_toks_opts, toks_doc. cbn [fst snd flat_map].
+  apply prun_kv_single; [exact Hk|]. unfold sb_root. now rewrite Hsb.
+Qed.
+
+(** * When are the fields accepted? *)
+Lemma brk_only_lfcr_sound t s : brk_only_lfcr t = true -> has_linebreak s = false -> brk t s = false.
+Proof.
+  destruct t as [l|]; [|discriminate]. cbn [brk_only_lfcr brk]. intros Hl Hs.
+  unfold has_linebreak in Hs. induction s as [|c s IH]; [reflexivity|].
+  cbn [existsb] in *. apply orb_false_iff in Hs as [Hc Hs]. rewrite (IH Hs), orb_false_r.
+  clear IH Hs. induction l as [|x l IHl]; [reflexivity|].
+  cbn [forallb] in Hl. apply andb_true_iff in Hl as [Hx Hl]. cbn [mem existsb].
+  fold (mem c l). rewrite (IHl Hl), orb_false_r.
+  destruct (c =? x) eqn:E; [|reflexivity]. apply N.eqb_eq in E. subst. now rewrite Hx in Hc.
+Qed.
+
+Fixpoint values_ok (k : kv) : bool :=
+  match k with
+  | Leaf _ v => negb (has_linebreak v)
+  | Block _ cs => forallb values_ok cs
+  end.
+
+(** A tree is accepted when each kind of field is either free of line breaks or allowed to have them. *)
+Lemma kv_ok_of P O : pcfg_ok P = true -> forall k,
+  po_newline_keys O || names_ok k = true -> po_newline_values O || values_ok k = true -> kv_ok P O k = true.
+Proof.
+  intros HP. unfold pcfg_ok in HP. apply andb_true_iff in HP as [HK HV].
+  induction k as [n v | n cs IH] using kv_ind'; intros Hn Hv; cbn [kv_ok names_ok values_ok] in *.
+  - unfold key_bad, value_bad. apply andb_true_iff. split; apply negb_true_iff.
+    + destruct (po_newline_keys O); [reflexivity|]. cbn [orb negb andb] in *. apply negb_true_iff in Hn.
+      now apply brk_only_lfcr_sound.
+    + destruct (po_newline_values O); [reflexivity|]. cbn [orb negb andb] in *. apply negb_true_iff in Hv.
+      now apply brk_only_lfcr_sound.
+  - apply andb_true_iff. split.
+    + unfold key_bad. apply negb_true_iff. destruct (po_newline_keys O); [reflexivity|].
+      cbn [orb negb andb] in *. apply andb_true_iff in Hn as [Hn _]. apply negb_true_iff in Hn.
+      now apply brk_only_lfcr_sound.
+    + apply forallb_forall. intros k Hin. rewrite Forall_forall in IH. apply (IH k Hin).
+      * destruct (po_newline_keys O); [reflexivity|]. cbn [orb] in *. apply andb_true_iff in Hn as [_ Hn].
+        rewrite forallb_forall in Hn. now apply Hn.
+      * destruct (po_newline_values O); [reflexivity|]. cbn [orb] in *.
+        rewrite forallb_forall in Hv. now apply Hv.
 Qed.
